@@ -30,7 +30,7 @@ func (s *c46Repo) LookupBlobSize(bh restic.BlobHandle) (uint, bool) {
 	return uint(len(b)), ok
 }
 
-func (s *c46Repo) LoadBlob(ctx context.Context, bh restic.BlobHandle, _ []byte) ([]byte, error) {
+func (s *c46Repo) LoadBlob(ctx context.Context, bh restic.BlobHandle, buf []byte) ([]byte, error) {
 	simrt.Park("load", bh.ID.Str(), nil)
 	s.mu.Lock()
 	s.loads++
@@ -38,6 +38,13 @@ func (s *c46Repo) LoadBlob(ctx context.Context, bh restic.BlobHandle, _ []byte) 
 	b, ok := s.blobs[bh.ID]
 	if !ok {
 		return nil, fmt.Errorf("blob %v not found", bh.ID.Str())
+	}
+	// like the real LoadBlob: a caller-supplied buffer that is large enough is decoded into
+	if cap(buf) >= len(b) && cap(buf) > 0 {
+		out := buf[:len(b)]
+		copy(out, b)
+		simrt.Park("load", "decoded "+bh.ID.Str(), nil)
+		return out, nil
 	}
 	return append([]byte(nil), b...), nil
 }
